@@ -510,7 +510,7 @@ static int KSI_Config_consolidateCalendarLastTime(KSI_Config *haCfg, KSI_Config 
 	res = KSI_Config_getCalendarFirstTime(haCfg, &haValFirst);
 	if (res != KSI_OK) goto cleanup;
 
-	if (KSI_Integer_compare(haValFirst, respVal) > 0 && isCalendarTimeValid(KSI_Integer_getUInt64(respVal)) != true) {
+	if (isCalendarTimeValid(KSI_Integer_getUInt64(respVal)) != true) {
 		KSI_LOG_info(KSI_Config_getCtx(haCfg), "The calendar last time is not in the valid range (%llu).",
 				(unsigned long long)KSI_Integer_getUInt64(respVal));
 		res = KSI_OK;
